@@ -144,7 +144,13 @@ func (r *rdbdriver) findMapInSortedData(domain, mtype []byte, context Context) (
 
 		foundLabel := foundKey[prefixLen : len(foundKey)-1]
 		length := findCommonLongestPrefix(reversedZone, foundLabel)
-		if length == 0 {
+		if length == len(reversedZone) {
+			// the closest key is the wildcard map of the queried name itself, which does not cover
+			// that name: continue with its parent
+			length = getLengthWithoutLastLabel(reversedZone, length) - 1
+		}
+		if length == 0 && len(k) == prefixLen+1+len(suffix) {
+			// the root was the last candidate
 			break
 		}
 
